@@ -380,11 +380,11 @@ class InternationalizationExtension(Extension):
 
             if plural_expr is None:
                 if isinstance(var, nodes.Call):
-                    plural_expr = nodes.Name("_trans", "load")
+                    # evaluate the call once; the temporary is an internal
+                    # name so it cannot shadow or leak a template variable
+                    plural_expr = parser.free_identifier(token.lineno)
                     variables[token.value] = plural_expr
-                    plural_expr_assignment = nodes.Assign(
-                        nodes.Name("_trans", "store"), var
-                    )
+                    plural_expr_assignment = nodes.Assign(plural_expr, var)
                 else:
                     plural_expr = var
                 num_called_num = token.value == "num"
